@@ -35,6 +35,12 @@ CLAIMED.update({
  "C17": ("Lean 4 theorems over a literal model of the sort/set state machines, for every length, every threshold >= 1 and every lawful key order: sort is a stable sorted permutation (hence unique and threshold-independent), uniq/set specifications, union/intersection/difference/membership by key on strictly sorted inputs with the tie side, binary search total and correct, first minimal/maximal element. Tied to stdlib.rs by arrays of every length 0..200 with many duplicates (threshold extracted from the source) through implementation and model and by Python's stable sort and set definitions as independent oracle.",
          "Lean kernel + standard axioms; keys are integers in the model driver (theorems are over an abstract lawful order); comparison machine is C08's business.",
          "Lean 4 proof + correspondence + Python reference oracle", "DESIGN.md §5 C17"),
+ "C01": ("Whole-pipeline crash freedom: kernel-checked no-panic theorems of the component models (lexer totality, span interning, radix/format/slice/search guards, trace-counter balance; restated in RsjProps/C01.lean) plus, on the implementation, exhaustive-by-construction fault hunting: random/mutated byte strings and generated programs as source, every member of std (listed by the implementation itself) on a grid of boundary arguments of every type, operators/slices/format on the same grid — all in-process under catch_unwind with overflow checks and debug assertions on — and the real CLI (exit status in {0,1,2}, no signal, no panic text) incl. ext-var/TLA bindings and nesting-depth probes. Partial: the evaluator's explicit stacks are modelled as a recursive interpreter (balance covered by correspondence), native-stack exhaustion of the recursive parser/analyzer is a known finding, allocator exhaustion is out of scope.",
+         "Lean kernel + standard axioms for the component theorems; the builtin grid and byte-string hunt are testing (they validate and search, they are not the proof); address space capped at 6 GiB, allocation failures and time-outs recorded separately.",
+         "Lean 4 proof (component no-panic theorems) + whole-pipeline differential/fault search", "DESIGN.md §5 C01"),
+ "C20": ("Lean 4 theorems for every input: base64 round trip, canonical form and exact acceptance set (RFC 4648), radix parsing = round-to-nearest-even of the exact integer for every length (sticky-bit lemma) with exact errors and no panic, UTF-8 encode/lossy-decode round trip and maximal-subpart specification, inverses of the bash/dollars/xml/json escapers, hex strings, parseJson inverts the escaper and never accepts duplicate keys (exact RFC 8259 acceptance: partial, validated against Python json); tied to the code through implementation and model on digit strings to 400 digits with a non-digit at every position, all scalar values, invalid UTF-8, mutated JSON/YAML documents; Python int/json/base64/codecs/hashlib as independent oracles; std.parseYaml totality and YAML=JSON agreement by the differential run only.",
+         "Lean kernel + standard axioms; digests, str::parse::<f64>, u128->f64, from_utf8_lossy and the saphyr YAML scanner are trusted/opaque; parseJson rejects lone-surrogate escapes and 1e999 by design (recorded assumption).",
+         "Lean 4 proof + correspondence + Python reference oracles", "DESIGN.md §5 C20"),
 })
 NOT_YET = "check not built yet in this round (no machinery committed for it)"
 
